@@ -2,8 +2,8 @@
 # tools/adopt.py <property> <mK> <pkgdir> "<what it breaks>" "<what it needs>" "<detected: class / tier / time or MISSED>"
 import sys, os, json, shutil
 pid, m, pkg, breaks, needs, detected = sys.argv[1:7]
-src=f"/tmp/mut/{pid}/out"
-d=f"/verif/seeded/{pid}-{m}"
+src=f"/tmp/mut/{pid}/"+os.environ.get("OUT","out")
+d=f"/verif/seeded/{pid}-"+os.environ.get("TAG","")+m
 os.makedirs(d, exist_ok=True)
 shutil.copy(f"{src}/{m}.diff", f"{d}/patch.diff")
 shutil.copy(f"{src}/{m}_demo_test.go", f"{d}/demo_test.go.txt")
